@@ -170,6 +170,7 @@ Lemma ohandle_unfold : forall nest (os : oserver) t c,
     | OX xc => oprune (mkO (xhandle fx nest (o_x os) t xc) (o_idx os) (o_ctr os))
     | OInsert key items => do_insert fx iname nest os ss key items
     | OReorder fields => do_reorder fx os ss fields
+    | OSetIdx flags items => do_set_idx fx nest os ss flags items
     | OBatch l => if Nat.ltb nest max_batch_nest
                   then fold_left (fun os0 c' => opush (ohandle fx iname (S nest) os0 t c')) l os
                   else os
@@ -198,13 +199,17 @@ Fixpoint orun_budget (evs : list oevent) : nat := match evs with [] => 0 | ev ::
 Lemma ohandle_inv : forall c nest (os : oserver) t B, small (B + obudget c) -> inv B (xs_sv (o_x os)) ->
   inv (B + obudget c) (xs_sv (o_x (ohandle fx iname nest os t c))).
 Proof.
-  induction c as [xc|k i|f|l IHl] using ocmd_ind'; intros nest os t B HB I; rewrite ohandle_unfold;
+  induction c as [xc|k i|f|fl i|l IHl] using ocmd_ind'; intros nest os t B HB I; rewrite ohandle_unfold;
     (destruct (get_session (xs_sv (o_x os)) t) as [a|] eqn:Ha; [|apply (inv_weaken B); [lia|exact I]]).
   - cbn [oprune o_x obudget]. now apply (xhandle_inv fx guard_on).
   - unfold do_insert. cbv zeta. cbn [oprune o_x obudget].
     match goal with |- inv _ (xs_sv (xhandle fx nest _ _ ?c)) => pose proof (xhandle_inv fx guard_on c nest (o_x os) (s_id a) B) as H end.
     cbn [xcmd_budget] in H. apply H; [exact HB|exact I].
   - unfold do_reorder. cbv zeta. cbn [oprune o_x obudget]. apply (inv_weaken B); [lia|exact I].
+  - unfold do_set_idx. cbn [oprune o_x obudget]. rewrite Nat.add_0_r in *. clear Ha. revert os I.
+    induction i as [|it i IH]; intros os I; cbn [fold_left]; [exact I|]. apply IH. unfold set_idx_item. cbv zeta. cbn [o_x].
+    match goal with |- inv _ (xs_sv (xhandle fx nest _ _ ?c)) => pose proof (xhandle_inv fx guard_on c nest (o_x os) (s_id a) B) as H end.
+    cbn [xcmd_budget] in H. rewrite Nat.add_0_r in H. now apply H.
   - rewrite obudget_batch in *. destruct (Nat.ltb nest max_batch_nest); [|apply (inv_weaken B); [lia|exact I]].
     clear Ha. revert os B HB I. induction IHl as [|c l Hc _ IHl']; intros os B HB I; cbn [fold_left osum] in *.
     + now rewrite Nat.add_0_r.
@@ -409,11 +414,88 @@ Proof.
   - split; [exact (proj2 (proj2 (proj2 (opush_frame s [] OF KF))))|exact (proj2 (proj2 (proj2 (opush_frame s [] OE KE))))].
 Qed.
 
+(* SETDATA with ADDTOINDEX on both sides, item by item *)
+Definition item_rel (B : nat) (t : sid) (dirT : path) (od : option path) (OF OE : oserver) : Prop :=
+  xrel s (o_x OF) (o_x OE) /\ vis_tbl od (o_idx OF) = o_idx OE /\ vis_tbl od (o_ctr OF) = o_ctr OE /\
+  deep (o_idx OF) /\ deep (o_ctr OF) /\
+  inv B (xs_sv (o_x OF)) /\ inv B (xs_sv (o_x OE)) /\ hosts_ok (xs_sv (o_x OF)) /\ hosts_ok (xs_sv (o_x OE)) /\ names_ok (xs_sv (o_x OF)) /\
+  sdir s (xs_sv (o_x OF)) = od /\
+  (exists aF, get_session (xs_sv (o_x OF)) t = Some aF /\ session_dir aF = dirT) /\
+  (exists aE, get_session (xs_sv (o_x OE)) t = Some aE /\ session_dir aE = dirT).
+
+Lemma set_idx_item_sim : forall nest a a' flags t B od OF OE it, small B -> t <> s ->
+  s_id a = t -> s_id a' = t -> session_dir a' = session_dir a ->
+  item_rel B t (session_dir a) od OF OE ->
+  item_rel B t (session_dir a) od (set_idx_item fx nest a flags OF it) (set_idx_item fx nest a' flags OE it).
+Proof.
+  intros nest a a' flags t B od OF OE it HB Ht Hia Hia' Hd (X & HI & HC & DI & DC & IF & IE & HF & HE & NF & Hod & (aF & HaF & HdF) & (aE & HaE & HdE)).
+  assert (Hv : forall r, hidden od (session_dir a ++ r) = false) by (rewrite <- HdF, <- Hod; now apply (other_dir_visible s B _ t aF)).
+  unfold set_idx_item. cbv zeta. rewrite Hd, Hia, Hia'.
+  set (sc := XSetData (N.setbit flags c_SETDATANODE_FLAG_DONTOVERWRITEDATA) [it]).
+  assert (HB0 : small (B + xcmd_budget sc)) by (unfold sc; cbn [xcmd_budget]; now rewrite Nat.add_0_r).
+  pose proof (xhandle_sim fx guard_on s sc nest (o_x OF) (o_x OE) t B HB0 IF IE HF HE NF X Ht) as X'.
+  set (xF' := xhandle fx nest (o_x OF) t sc) in *. set (xE' := xhandle fx nest (o_x OE) t sc) in *.
+  assert (Hsd : sdir s (xs_sv xF') = od) by (rewrite <- Hod; now apply (xhandle_sdir sc nest (o_x OF) t aF)).
+  pose proof (proj1 (proj1 X')) as R1'. rewrite Hsd in R1'. pose proof (proj1 (proj1 X)) as R1. rewrite Hod in R1.
+  set (p := session_dir a ++ snd (fst it)).
+  assert (Hlp : 2 <= length p) by (unfold p; rewrite app_length, session_dir_len; lia).
+  assert (Hn0 : has_node (sv_tree (xs_sv (o_x OE))) p = has_node (sv_tree (xs_sv (o_x OF))) p) by (apply (rel_has_node s od); [exact R1|exact Hlp|apply Hv]).
+  assert (Hn1 : has_node (sv_tree (xs_sv xE')) p = has_node (sv_tree (xs_sv xF')) p) by (apply (rel_has_node s od); [exact R1'|exact Hlp|apply Hv]).
+  rewrite Hn0, Hn1.
+  pose proof (xhandle_xframe fx sc nest (o_x OF) t aF HaF) as FrF. pose proof (xhandle_xframe fx sc nest (o_x OE) t aE HaE) as FrE.
+  fold xF' in FrF. fold xE' in FrE.
+  assert (I0 : forall B0, B0 + 0 = B0) by (intros; lia).
+  split; [exact X'|]. cbn [o_x o_idx o_ctr]. split; [|split; [exact HC|split; [|split; [exact DC|]]]].
+  - destruct (_ && has_node (sv_tree (xs_sv xF')) p); [|exact HI].
+    rewrite vis_idx_set by apply Hv. rewrite HI. f_equal. f_equal. rewrite <- HI. symmetry. apply vis_idx_get, Hv.
+  - destruct (_ && has_node (sv_tree (xs_sv xF')) p); [|exact DI]. apply deep_idx_set; [exact DI|]. rewrite app_length, session_dir_len. lia.
+  - split; [pose proof (xhandle_inv fx guard_on sc nest (o_x OF) t B HB0 IF) as H; unfold sc in H; cbn [xcmd_budget] in H; now rewrite I0 in H|].
+    split; [pose proof (xhandle_inv fx guard_on sc nest (o_x OE) t B HB0 IE) as H; unfold sc in H; cbn [xcmd_budget] in H; now rewrite I0 in H|].
+    split; [apply (hosts_ok_frame (xs_sv (o_x OF)) _ t (session_dir aF)); [reflexivity|exact (proj1 FrF)|exact HF]|].
+    split; [apply (hosts_ok_frame (xs_sv (o_x OE)) _ t (session_dir aE)); [reflexivity|exact (proj1 FrE)|exact HE]|].
+    split; [apply (names_ok_idents (xs_sv (o_x OF))); [exact (proj2 (proj2 (proj1 FrF)))|exact NF]|].
+    split; [exact Hsd|]. split.
+    + pose proof (proj2 (proj2 (proj1 FrF))) as Hid. destruct (get_session (xs_sv xF') t) as [a2|] eqn:H2.
+      * exists a2. split; [reflexivity|]. destruct (idents_session_dir _ _ t aF a2 Hid HaF H2) as [_ H3]. congruence.
+      * pose proof (idents_get_none _ _ t Hid H2). congruence.
+    + pose proof (proj2 (proj2 (proj1 FrE))) as Hid. destruct (get_session (xs_sv xE') t) as [a2|] eqn:H2.
+      * exists a2. split; [reflexivity|]. destruct (idents_session_dir _ _ t aE a2 Hid HaE H2) as [_ H3]. congruence.
+      * pose proof (idents_get_none _ _ t Hid H2). congruence.
+Qed.
+
+Lemma do_set_idx_sim : forall nest (OF OE : oserver) a a' flags items t B, small B ->
+  inv B (xs_sv (o_x OF)) -> inv B (xs_sv (o_x OE)) -> hosts_ok (xs_sv (o_x OF)) -> hosts_ok (xs_sv (o_x OE)) -> names_ok (xs_sv (o_x OF)) ->
+  orel OF OE -> t <> s -> get_session (xs_sv (o_x OF)) t = Some a -> get_session (xs_sv (o_x OE)) t = Some a' ->
+  orel (do_set_idx fx nest OF a flags items) (do_set_idx fx nest OE a' flags items).
+Proof.
+  intros nest OF OE a a' flags items t B HB IF IE HF HE NF [X [HI [HC [KF KE]]]] Ht Ha Ha'.
+  pose proof (rel_get_session s _ _ t (proj2 (proj1 X)) Ht) as Hg. rewrite Ha, Ha' in Hg.
+  pose proof (sparams_parts _ _ Hg) as [G1 [G2 [G3 _]]].
+  assert (Hd : session_dir a' = session_dir a) by (unfold session_dir; now rewrite G2, G3).
+  pose proof (get_session_id _ _ _ Ha) as Hia. pose proof (get_session_id _ _ _ Ha') as Hia'.
+  set (od := sdir s (xs_sv (o_x OF))).
+  assert (Q0 : item_rel B t (session_dir a) od OF OE).
+  { split; [exact X|]. split; [exact HI|]. split; [exact HC|]. split; [apply KF|]. split; [apply KF|].
+    repeat (split; [assumption|]). split; [reflexivity|]. split; [now exists a|now exists a']. }
+  assert (Q : item_rel B t (session_dir a) od (fold_left (set_idx_item fx nest a flags) items OF) (fold_left (set_idx_item fx nest a' flags) items OE)).
+  { clear Ha Ha' X HI HC KF KE IF IE HF HE NF Hg. clearbody od. revert OF OE Q0.
+    induction items as [|it items IH]; intros OF OE Q0; cbn [fold_left]; [exact Q0|].
+    apply IH. now apply (set_idx_item_sim nest a a' flags t B). }
+  destruct Q as (X' & HI' & HC' & DI' & DC' & _ & _ & _ & _ & _ & Hsd & _).
+  unfold do_set_idx.
+  set (F1 := fold_left (set_idx_item fx nest a flags) items OF) in *. set (E1 := fold_left (set_idx_item fx nest a' flags) items OE) in *.
+  destruct (oprune_sim (o_x F1) (o_x E1) (o_idx F1) (o_ctr F1) (proj1 X') DI' DC') as [P1 [P2 [P3 P4]]]. cbv zeta in P1, P2, P3, P4.
+  rewrite Hsd, HI', HC' in *.
+  replace (mkO (o_x F1) (o_idx F1) (o_ctr F1)) with F1 in * by (destruct F1; reflexivity).
+  replace (mkO (o_x E1) (o_idx E1) (o_ctr E1)) with E1 in * by (destruct E1; reflexivity).
+  split; [exact X'|]. cbn [oprune o_x]. rewrite Hsd. split; [exact P1|]. split; [exact P2|]. split; [exact P3|exact P4].
+Qed.
+
 Theorem ohandle_sim : forall c nest (OF OE : oserver) t B, small (B + obudget c) ->
   inv B (xs_sv (o_x OF)) -> inv B (xs_sv (o_x OE)) -> hosts_ok (xs_sv (o_x OF)) -> hosts_ok (xs_sv (o_x OE)) -> names_ok (xs_sv (o_x OF)) ->
   orel OF OE -> t <> s -> orel (ohandle fx iname nest OF t c) (ohandle fx iname nest OE t c).
 Proof.
-  induction c as [xc|k i|f|l IHl] using ocmd_ind'; intros nest OF OE t B HB IF IE HF HE NF O Ht; rewrite !ohandle_unfold;
+  induction c as [xc|k i|f|fl i|l IHl] using ocmd_ind'; intros nest OF OE t B HB IF IE HF HE NF O Ht; rewrite !ohandle_unfold;
     pose proof O as [X [HI [HC [KF KE]]]]; pose proof X as [R _];
     pose proof (rel_get_session s _ _ t (proj2 R) Ht) as Hg;
     (destruct (get_session (xs_sv (o_x OF)) t) as [a|] eqn:Ha; destruct (get_session (xs_sv (o_x OE)) t) as [a'|] eqn:Ha'; try contradiction; [|exact O]).
@@ -424,6 +506,7 @@ Proof.
     split; [exact X'|]. cbn [oprune o_x]. rewrite Hsd. split; [exact P1|]. split; [exact P2|]. split; [exact P3|exact P4].
   - cbn [obudget] in HB. rewrite Nat.add_0_r in HB. now apply (do_insert_sim nest OF OE a a' k i t B).
   - now apply (do_reorder_sim OF OE a a' f t B).
+  - cbn [obudget] in HB. rewrite Nat.add_0_r in HB. now apply (do_set_idx_sim nest OF OE a a' fl i t B).
   - rewrite obudget_batch in HB. destruct (Nat.ltb nest max_batch_nest); [|exact O].
     clear Ha Ha' Hg R X HI HC KF KE. revert OF OE B HB IF IE HF HE NF O.
     induction IHl as [|c l Hc _ IHl']; intros OF OE B HB IF IE HF HE NF O; cbn [fold_left osum] in *; [exact O|].
@@ -662,11 +745,16 @@ Qed.
 Lemma ohandle_self_quiet : forall c nest (os : oserver), nokick_s s (o_x os) ->
   xs_ducks (o_x (ohandle fx iname nest os s c)) = xs_ducks (o_x os) /\ nokick_s s (o_x (ohandle fx iname nest os s c)).
 Proof.
-  induction c as [xc|k i|f|l IHl] using ocmd_ind'; intros nest os K; rewrite ohandle_unfold;
+  induction c as [xc|k i|f|fl i|l IHl] using ocmd_ind'; intros nest os K; rewrite ohandle_unfold;
     (destruct (get_session (xs_sv (o_x os)) s) as [a|] eqn:Ha; [|now split]).
   - cbn [oprune o_x]. now apply (xhandle_self_quiet fx s).
   - unfold do_insert. cbv zeta. cbn [oprune o_x]. rewrite (get_session_id _ _ _ Ha). now apply (xhandle_self_quiet fx s).
   - unfold do_reorder. cbv zeta. cbn [oprune o_x]. now split.
+  - pose proof (get_session_id _ _ _ Ha) as Hida. unfold do_set_idx. cbn [oprune o_x]. clear Ha. revert os K.
+    induction i as [|it i IH]; intros os K; cbn [fold_left]; [now split|].
+    assert (Hstep : xs_ducks (o_x (set_idx_item fx nest a fl os it)) = xs_ducks (o_x os) /\ nokick_s s (o_x (set_idx_item fx nest a fl os it))).
+    { unfold set_idx_item. cbv zeta. cbn [o_x]. rewrite Hida. now apply (xhandle_self_quiet fx s). }
+    destruct Hstep as [D1 K1]. destruct (IH _ K1) as [D2 K2]. split; [congruence|exact K2].
   - destruct (Nat.ltb nest max_batch_nest); [|now split]. clear Ha. revert os K.
     induction IHl as [|c l Hc _ IHl']; intros os K; cbn [fold_left]; [now split|].
     destruct (Hc (S nest) os K) as [D1 K1].
